@@ -105,7 +105,7 @@ def run_property(prop, tier, seed=0, only=None, jobs=None, verbose=True):
     from vlib import h, preflight
 
     env = dict(os.environ)
-    env["PYTHONPATH"] = ROOT + os.pathsep + env.get("PYTHONPATH", "")
+    env["PYTHONPATH"] = (os.environ["VERIF_REPO"] + os.pathsep if os.environ.get("VERIF_REPO") else "") + ROOT + os.pathsep + env.get("PYTHONPATH", "")
     env["PYTHONHASHSEED"] = "0"
     env["VERIF_TIER"] = tier
     env.setdefault("TJHUNTER_DDS_PY_VERIF", "1")
